@@ -249,3 +249,42 @@ package bus
 //@   requires from != nil && s.auth != nil
 //@   modifies everything
 //@   ensures[C06] from.authd && !old(from.authd) ==> exists u string, t string {authok(s.auth, u, t)} :: authok(s.auth, u, t)
+
+// ---- signalHandler: subscriber table (C16: remaining subscribers are told on termination)
+//@ guarded_by (o *signalHandler) o.signalsMutex: o.signals, o.signals[*]
+//@   monitor forall k int {o.signals[k]} :: 0 <= k && k < len(o.signals) ==> o.signals[k].context != nil
+//@ ghostfield sent int
+//@ interface (c Channel) Send(msg *net.Message) (err error)
+//@   trusted
+//@   modifies c.sent
+//@   ensures c.sent == old(c.sent) + 1
+//@ interface (e net.EndPoint) RemoveHandler(id int) (err error)
+//@   trusted
+//@   modifies everything
+//@ func (o *signalHandler) trace(msg *net.Message)
+//@   trusted
+//@   pure
+//@ func (o *signalHandler) newHeader(typ uint8, action uint32, id uint32) (result net.Header)
+//@   trusted
+//@   pure
+
+// sendTerminate: exactly one message is sent to the subscriber's connection.
+//@ func (o *signalHandler) sendTerminate(user *signalUser, signal uint32) (err error)
+//@   tags C16
+//@   requires user != nil && user.context != nil
+//@   modifies user.context.sent
+//@   ensures[C16] user.context.sent == old(user.context.sent) + 1
+
+// OnTerminate: the table is detached and emptied inside the critical section; the detached copy is
+// private to this call (every element read after the release carries the obligation that the
+// protected field no longer refers to that array), each of its entries is sent one error message.
+//@ func (o *signalHandler) OnTerminate()
+//@   tags C16
+//@   requires !o.signalsMutex.lockw && o.signalsMutex.lockr == 0
+//@   modifies everything
+//@   ensures[C16] !o.signalsMutex.lockw && o.signalsMutex.lockr == 0
+//@   ensures[C16] at_unlock(len(o.signals)) == 0
+//@   private signals[*]
+//@   loop 1:
+//@     invariant !o.signalsMutex.lockw && o.signalsMutex.lockr == 0
+//@     invariant forall k int {signals[k]} :: 0 <= k && k < len(signals) ==> signals[k].context != nil
